@@ -235,7 +235,7 @@ func StartEnv(o EnvOpts) (*Env, error) {
 			} `json:"reauthorizationDetails"`
 		}
 		_ = json.Unmarshal(body, &nr)
-		n := Notif{Path: r.URL.Path}
+		n := Notif{Path: r.URL.RequestURI()}
 		for _, d := range nr.ReauthorizationDetails {
 			n.Rgs = append(n.Rgs, d.RatingGroup)
 		}
